@@ -1,8 +1,17 @@
 #!/usr/bin/env python3
-"""Setup-time self checks: builds every harness once (warming the build cache) and runs the
-instrumenter conformance check (the repository's own tests on instrumented sources, runtime in
-pass-through mode)."""
+"""Setup-time self checks of the machinery (never property verdicts):
+
+1. Instrumenter conformance: every package the SCHED checks instrument is built from its
+   instrumented sources together with the repository's own tests, which must pass with the runtime in
+   pass-through mode (translation validation of our own tool).
+2. Reduction cross-check: on small broker configurations the set of distinct outcomes found with
+   DPOR + sleep sets must equal the one found with sleep sets alone and the one found by plain
+   exhaustive search with the happens-before state cache (no partial-order reduction at all).
+3. Warm build of every harness binary (normal and -race) so that the checks' first builds are fast.
+"""
+import json
 import os
+import shutil
 import sys
 
 sys.path.insert(0, os.path.join(os.path.dirname(os.path.abspath(__file__)), "..", "lib"))
@@ -11,8 +20,6 @@ import vlib  # noqa: E402
 
 
 def conformance(name, pkgs, test_pkgs):
-    """Build instrumented pkgs together with the repository's own tests and run them."""
-    import json, shutil
     work = vlib.workdir("conf-" + name)
     mf = vlib.modfile(work)
     src = os.path.join(work, "src")
@@ -27,17 +34,53 @@ def conformance(name, pkgs, test_pkgs):
     ov = os.path.join(work, "overlay.json")
     json.dump({"Replace": overlay}, open(ov, "w"))
     cmd = ["go", "test", "-overlay", ov, "-modfile", mf, "-vet=off", "-ldflags=-checklinkname=0", "-count=1"] + ["./" + p for p in test_pkgs]
-    p = vlib.run(cmd, cwd=vlib.REPO, check=False, timeout=900)
+    p = vlib.run(cmd, cwd=vlib.REPO, check=False, timeout=1200)
     ok = p.returncode == 0
-    print("[conformance] %s: %s" % (name, "ok" if ok else "FAILED"))
+    print("[conformance] %s: %s" % (name, "ok" if ok else "FAILED"), flush=True)
     if not ok:
         print(p.stdout[-5000:])
     return ok
 
 
+def outcomes(binary, harness, cfg, mode):
+    env = {"VERIF_SLEEPONLY": "1"} if mode == "sleep" else None
+    if mode == "cache":
+        r = vlib.explore(binary, harness, -1, 120, cfg=cfg, por=False, cache=True)
+    else:
+        r = vlib.explore(binary, harness, -1, 120, cfg=cfg, por=True, cache=False, env_extra=env)
+    if not r["exhaustive"] or r["n_outcomes"] >= 400:
+        raise vlib.EngineError("cross-check pass %s %s not exhaustive" % (harness, mode))
+    return set(r["outcomes"].keys()), r["executions"]
+
+
+def crosscheck():
+    import broker_common
+    b = broker_common.build_broker()
+    ok = True
+    for cfg, modes in (({"P": "1", "C": "1"}, ("dpor", "sleep", "cache")), ({"P": "1", "C": "2"}, ("dpor", "sleep"))):
+        res = {m: outcomes(b, "c04", cfg, m) for m in modes}
+        ref = res[modes[-1]][0]
+        same = all(res[m][0] == ref for m in modes)
+        print("[crosscheck] c04 %s: %s -> %s" % (cfg, {m: (len(res[m][0]), res[m][1]) for m in modes}, "same outcome sets" if same else "DIFFERENT OUTCOME SETS"), flush=True)
+        ok = ok and same
+    return ok
+
+
+def warm():
+    import broker_common, client_common, proxy_common, server_common, tt_common
+    for mod in (broker_common, tt_common, client_common, server_common, proxy_common):
+        build = getattr(mod, "build", None) or getattr(mod, "build_broker")
+        build()
+        build(race=True)
+
+
 def main():
     ok = True
     ok &= conformance("broker", ["broker"], ["broker"])
+    ok &= conformance("turbotunnel", ["common/turbotunnel"], ["common/turbotunnel"])
+    ok &= conformance("libs", ["client/lib", "server/lib", "proxy/lib", "common/turbotunnel"], ["client/lib", "server/lib", "proxy/lib"])
+    ok &= crosscheck()
+    warm()
     if not ok:
         sys.exit(1)
 
